@@ -1,5 +1,5 @@
 From TLXV Require Import C20.Math C20.Agg C20.Run.
 Require Extraction. Require ExtrOcamlBasic.
 Extraction Language OCaml.
-Extraction "../ocaml/gen/C20_model.ml" Run.eval1 Run.eval2 Math.mkTy
-  Agg.run Agg.ghost Agg.feed Agg.empty Agg.observe Agg.dbl_max.
+Extraction "../ocaml/gen/C20_model.ml" Run.eval1 Run.eval2 Run.eval2m Run.eval_range Math.mkTy
+  Agg.run Agg.ghost Agg.feed Agg.empty Agg.observe Agg.dbl_max Agg.flt_max.
